@@ -280,6 +280,18 @@ def run(rep, sub=False):
         check_pair('Statement', v, f, FWfull, 'callee of a call statement', 'fn')
     for v, f in efuncs:
         check_pair('Expression', v, f, FWfull, 'callee of a value-returning call', 'fn')
+    # no early exit from a traversal loop: a `return` / `break` inside the `for` over the statements of a block or over the expression arena
+    # abandons the remaining elements (e.g. `if !visited.insert(f) { return; }` where `continue` was meant)
+    n_exit = 0
+    for e in effs:
+        if e['kind'] == 'exit' and e['in'] in walkers and e.get('for_loops'):
+            n_exit += 1
+            src = [l[1] for l in e['loops'] if l[0] in e['for_loops']]
+            rep.bad('C03.1.whole-arena', f'early-exit:{e["in"].split("::")[-1]}:{e["what"]}', where(e),
+                    f'`{e["what"]}` inside the traversal loop over {[E.show(x, maxdepth=3) for x in src][:2]} under {E.show(e["cond"], maxdepth=4)}: the statements / expressions after the '
+                    f'current one are not visited, so accesses and calls placed there are invisible')
+    if not n_exit:
+        rep.ok('C03.1.whole-arena', 'no-early-exit', fwhere(sorted(BW)[0]), 'no return / break inside a traversal loop of the walker')
     # function walker walks its body and its expression arena
     rep.check(bool(FWfull), 'C03.1.function-body', 'function-walker', fwhere(sorted(FW)[0]),
               'no function of the walker walks both function.body (call statements) and the whole function.expressions arena of the function it is given',
@@ -432,6 +444,10 @@ def run(rep, sub=False):
         rep.check(ok_src, 'C03.3.seed-all-entries', f'entries:{q}', fwhere(q),
                   f'the walk is not seeded from all of module.entry_points (source {E.show(outer[1], maxdepth=4) if outer else None}, filters {[E.show(c, maxdepth=3) for c in (outer[2] if outer else [])]})',
                   ok_detail='for entry in module.entry_points (no adapter)')
+        exits = [x for x in ogp.effects[q] if x['kind'] == 'exit' and x['in'] == q and x.get('for_loops')]
+        rep.check(not exits, 'C03.3.seed-all-entries', f'entries-early-exit:{q}', fwhere(q),
+                  f'the loop over the entry points can be left early ({[x["what"] + " under " + E.show(x["cond"], maxdepth=3) for x in exits][:2]}): later entry points are never walked, so their '
+                  f'stages are missing', ok_detail='no return / break in the loop over the entry points')
         if not outer:
             continue
         elem = ('elem', outer[0], outer[1])
